@@ -832,6 +832,32 @@ def gen_c14(rng, fixed_pair=True):
     nmem = [b.field("STRING"), b.field("PRICE")]
     pair("Nested", ("g", cnt, True, [("f", m[0], True), ("g", ncnt, False, [("f", nmem[0], True), ("f", nmem[1], False)]), ("f", m[1], False)]),
          ("g", cnt, True, [("f", m[0], True), ("g", ncnt, False, [("f", nmem[1], True), ("f", nmem[0], True)]), ("f", m[1], False)]))
+    # definitions that differ ONLY inside a nested group (depth 2) or a nested-nested group (depth 3):
+    # the structural hash must recurse into them.  Another / an added nested member changes the hash
+    # (no sharing, each message keeps its own nested classes); another required flag inside the nested
+    # group does not (finding F18, like the order variant above)
+    def nest_pair(tag, depth, variant):
+        cnts = [b.field("NUMINGROUP") for _ in range(depth)]
+        outer = [[b.field("STRING"), b.field("INT")] for _ in range(depth - 1)]
+        inner = [b.field("STRING"), b.field("PRICE"), b.field("INT")]
+
+        def build(which):
+            if variant == "member":
+                leaf = [("f", inner[0], True), ("f", inner[1] if which == 0 else inner[2], False)]
+            elif variant == "added":
+                leaf = [("f", inner[0], True), ("f", inner[1], False)] + ([("f", inner[2], False)] if which else [])
+            else:  # flag
+                leaf = [("f", inner[0], True), ("f", inner[1], which == 1)]
+            g = ("g", cnts[-1], False, leaf)
+            for lvl in range(depth - 2, -1, -1):
+                g = ("g", cnts[lvl], lvl == 0, [("f", outer[lvl][0], True), g, ("f", outer[lvl][1], False)])
+            return g
+        pair(tag, build(0), build(1))
+    nest_pair("NestMember", 2, "member")
+    nest_pair("NestAdded", 2, "added")
+    nest_pair("NestFlag", 2, "flag")
+    nest_pair("DeepMember", 3, "member")
+    nest_pair("DeepAdded", 3, "added")
     # controls: identical definitions (sharing is legitimate), and different members (no sharing)
     cnt = b.field("NUMINGROUP")
     m = [b.field("STRING"), b.field("INT")]
